@@ -55,8 +55,14 @@ func (e aEpoch) spec(seed int64, fanout int) fixture.EpochSpec {
 		for _, en := range b.Entries {
 			es := fixture.EntrySpec{}
 			for _, t := range en.Txs {
+				pad := aPadBytes[t.Pad]
+				if t.Dframes > 1 && pad < 150 {
+					// the archive writer never splits a payload so finely that the first frame holds less than the
+					// signature section (the indexers read the first signature from the first frame)
+					pad = 150
+				}
 				es.Txs = append(es.Txs, fixture.TxSpec{SigID: t.Sig, Accounts: t.Accts, Loaded: t.Loaded, Vote: t.Vote, Failed: t.Failed,
-					NoMeta: t.Nometa, DataFrames: t.Dframes, MetaFrames: t.Mframes, Pad: aPadBytes[t.Pad], MetaPad: aMetaPadBytes[t.Mpad]})
+					NoMeta: t.Nometa, DataFrames: t.Dframes, MetaFrames: t.Mframes, Pad: pad, MetaPad: aMetaPadBytes[t.Mpad]})
 			}
 			bs.Entries = append(bs.Entries, es)
 		}
